@@ -238,7 +238,13 @@ func equals(t types.Type, x, y value) bool {
 	case *value:
 		return x == y.(*value)
 	case chan value:
-		return x == y.(chan value)
+		if yc, ok := y.(chan value); ok {
+			return x == yc
+		}
+		return false // a nil channel against a made channel
+	case *ichan:
+		yc, ok := y.(*ichan)
+		return ok && x == yc
 	case structure:
 		return x.eq(t, y)
 	case array:
@@ -300,6 +306,8 @@ func hash(outer, t types.Type, x value) int {
 		return int(uintptr(unsafe.Pointer(x)))
 	case chan value:
 		return int(uintptr(reflect.ValueOf(x).Pointer()))
+	case *ichan:
+		return int(uintptr(unsafe.Pointer(x)))
 	case structure:
 		return x.hash(t)
 	case array:
